@@ -40,7 +40,7 @@ pub fn groups() -> Vec<(&'static str, Vec<Op>, bool)> {
         ("decode", ops(&["g1_decode 2 0", "g1_serdes 1 0 0", "g1_decode 3 1", "g1_insub 2"]), false),
         ("g2_tables3", ops(&["g2_mul3 1 5", "g2_pre3 1"]), false),
         ("nop", ops(&["nop"]), false),
-        ("misc_surface", ops(&["misc2 0 3", "misc2 1 2", "misc2 9 1", "misc2 5 2", "misc2 3 1", "misc 1 3", "misc2 0 70", "misc2 6 1"]), true),
+        ("misc_surface", ops(&["misc2 0 3", "misc2 1 2", "misc2 9 1", "misc2 5 2", "misc2 3 1", "misc 1 3", "misc2 0 70", "misc2 6 1", "fr_serdes 2 3", "g1_serdes 1 1 0 4", "g1_serdes 1 1 1 3"]), true),
         ("map_direct", ops(&["misc2 7 1", "misc2 2 3", "misc2 8 1"]), false),
     ]
 }
